@@ -56,6 +56,11 @@ impl ModuleImports {
                     if imports.values().any(|path| *path == module_path) {
                         return Err(ParsingError::duplicate_module_import(token, &module_path));
                     }
+                    // two imports must not be known under the same module name: `exec.name::proc`
+                    // would silently refer to whichever `use` statement comes last
+                    if imports.contains_key(&module_name) {
+                        return Err(ParsingError::duplicate_module_import(token, &module_path));
+                    }
 
                     imports.insert(module_name, module_path);
 
